@@ -26,6 +26,11 @@ type pl struct {
 	dup     bool
 }
 
+type retiredID struct {
+	id  string
+	typ colarspb.ArrowPayloadType
+}
+
 type fault struct {
 	Op  string
 	I   int
@@ -55,13 +60,15 @@ func singleFaults(n int) []fault {
 		for _, op := range structuralOps {
 			out = append(out, fault{op, i, 0})
 		}
+		// stale ids: the three most recently retired ids of the payload's own type, and a foreign one
+		out = append(out, fault{"stale-id", i, 1}, fault{"stale-id", i, 2}, fault{"stale-id", i, 99})
 	}
 	out = append(out, fault{"reverse", 0, 0}, fault{"rotate", 0, 1}, fault{"rotate", 0, n - 1})
 	return out
 }
 
 // applyFault returns the new payload list and the schema ids whose sub-stream lost bytes.
-func applyFault(list []pl, f fault, retired []string, lost map[string]bool) []pl {
+func applyFault(list []pl, f fault, retired []retiredID, lost map[string]bool) []pl {
 	n := len(list)
 	if n == 0 {
 		return list
@@ -111,10 +118,26 @@ func applyFault(list []pl, f fault, retired []string, lost map[string]bool) []pl
 		lost[list[i].origID] = true
 		list[i].id = fmt.Sprintf("unknown-%d", i)
 	case "stale-id":
-		if len(retired) == 0 {
+		// Arg 0,1,2: the most recently retired ids of this payload's own type; Arg 99: of another type
+		var same, other []string
+		for k := len(retired) - 1; k >= 0; k-- {
+			if retired[k].typ == list[i].typ {
+				same = append(same, retired[k].id)
+			} else {
+				other = append(other, retired[k].id)
+			}
+		}
+		switch {
+		case f.Arg != 99 && f.Arg < len(same):
+			list[i].id = same[f.Arg]
+		case f.Arg == 99 && len(other) > 0:
+			list[i].id = other[0]
+		case len(same) > 0:
+			list[i].id = same[0]
+		case len(other) > 0:
+			list[i].id = other[0]
+		default:
 			list[i].id = "never-used-999"
-		} else {
-			list[i].id = retired[f.Arg%len(retired)]
 		}
 		lost[list[i].origID] = true
 	}
@@ -203,11 +226,11 @@ func runFaulty(c *vc.Case, st *c07Stream, sig canon.Signal, target int, faults [
 	}
 	opened := map[string]bool{}                       // schema ids whose reader has been opened by the consumer
 	current := map[colarspb.ArrowPayloadType]string{} // producer-side current id per type
-	var retired []string
+	var retired []retiredID
 	note := func(bar *colarspb.BatchArrowRecords) {
 		for _, p := range bar.ArrowPayloads {
 			if old, ok := current[p.Type]; ok && old != p.SchemaId {
-				retired = append(retired, old)
+				retired = append(retired, retiredID{old, p.Type})
 			}
 			current[p.Type] = p.SchemaId
 		}
